@@ -326,6 +326,13 @@ func RsaDecryptWithPublicKey(ciphertext []byte, publicKey RsaPublicKey) ([]byte,
 	}
 
 	m := new(big.Int).SetBytes(ciphertext)
+
+	// the signature representative must be in the range 0..n-1 (RFC 8017 s5.2.2 / ISO 9796-2)
+	// - otherwise s+n, s+2n, .. would all be accepted as the same signature
+	if publicKey.N == nil || m.Cmp(publicKey.N) >= 0 {
+		return nil, fmt.Errorf("[RsaDecryptWithPublicKey] signature representative out of range")
+	}
+
 	e := big.NewInt(int64(publicKey.E))
 	c := new(big.Int).Exp(m, e, publicKey.N)
 
